@@ -45,9 +45,16 @@ func Skip(dAtA []byte) (n int, err error) {
 			b := dAtA[iNdEx]
 			iNdEx++
 			wire |= (uint64(b) & 0x7F) << shift
+			if shift == 63 && b > 1 {
+				return 0, ErrIntOverflow
+			}
 			if b < 0x80 {
 				break
 			}
+		}
+		// what is skipped is kept as unknown fields and parsed again by protobuf-go: refuse what protowire refuses
+		if num := wire >> 3; num == 0 || num > 1<<31-1 {
+			return 0, fmt.Errorf("proto: illegal tag %d (wire type %d)", num, wire&0x7)
 		}
 		wireType := int(wire & 0x7)
 		switch wireType {
@@ -60,6 +67,9 @@ func Skip(dAtA []byte) (n int, err error) {
 					return 0, io.ErrUnexpectedEOF
 				}
 				iNdEx++
+				if shift == 63 && dAtA[iNdEx-1] > 1 {
+					return 0, ErrIntOverflow
+				}
 				if dAtA[iNdEx-1] < 0x80 {
 					break
 				}
@@ -78,6 +88,9 @@ func Skip(dAtA []byte) (n int, err error) {
 				b := dAtA[iNdEx]
 				iNdEx++
 				length |= (int(b) & 0x7F) << shift
+				if shift == 63 && b > 1 {
+					return 0, ErrIntOverflow
+				}
 				if b < 0x80 {
 					break
 				}
